@@ -1,0 +1,17 @@
+//go:build verif
+
+package client
+
+// VerifRegistrySize is the number of registered response handlers.
+func (rm *RpcMultiplexer) VerifRegistrySize() int {
+	rm.mutex.Lock()
+	defer rm.mutex.Unlock()
+	return len(rm.handlers)
+}
+
+// VerifReadErr is the recorded transport read error, if any.
+func (rm *RpcMultiplexer) VerifReadErr() error {
+	rm.mutex.Lock()
+	defer rm.mutex.Unlock()
+	return rm.rErr
+}
